@@ -301,6 +301,10 @@ func runC17(p *Prog, r *Report, tier string) {
 					each, whole = true, true
 				}
 			}
+			if early := ci.earlyLoopExits(); len(early) > 0 {
+				whole = false
+				vals = append(vals, "early loop exit: "+early[0])
+			}
 			r.check(each && whole, "field-coverage", "field-coverage/init-every-element/"+f, ci.pos(), "every element of genState."+f+" is stored",
 				fmt.Sprintf("InitGenesis does not store every element of genState.%s (values: %v, whole-list loop: %v)", f, vals, whole))
 		}
@@ -490,7 +494,8 @@ func runC17(p *Prog, r *Report, tier string) {
 				full = true
 			}
 		}
-		r.check(full, "dup-detection", "dup-detection/"+list+"/whole-list", cv.pos(), "ranges over the whole list", "the duplicate check no longer ranges over the whole "+list)
+		early := cv.earlyLoopExits()
+		r.check(full && len(early) == 0, "dup-detection", "dup-detection/"+list+"/whole-list", cv.pos(), "ranges over the whole list; the loops of Validate are left only by their own test or by a rejection", fmt.Sprintf("the duplicate check no longer ranges over the whole %s (header test present: %v; early exits: %v)", list, full, early))
 	}
 	for _, f := range []string{"BurningAndMintingPaused", "SendingAndReceivingMessagesPaused"} {
 		g := []Atom{A("!(nil == p0." + f + ")")}
